@@ -146,3 +146,28 @@ func execC16Model(req string) (string, bool) {
 	}
 	return "", false
 }
+
+// c16ValidSyntaxCases: WELL-FORMED parameter sets and slice headers from the independent serialiser of C15 (all
+// extensions it covers: range, multilayer, 3D, SCC; HRD; scaling lists; inter-predicted RPS) as inputs of the AVC/HEVC
+// NAL-unit entry points: valid inputs must satisfy the time and memory bounds as well.
+func c16ValidSyntaxCases(r *rand.Rand, n int) []c16Case {
+	var out []c16Case
+	for i := 0; i < n; i++ {
+		if i%2 == 0 {
+			s := genHEVCSPSOpt(r, esOpt{ID: -1})
+			p := genHEVCPPSOpt(r, s, esOpt{ID: -1})
+			sl := genHEVCSlice(r, s, p)
+			for _, d := range [][]byte{s.NALU, p.NALU, sl.NALU} {
+				out = append(out, c16Case{group: "nalu.hevc", kind: "valid.esgen", ctx1: s.NALU, ctx2: p.NALU, d: d})
+			}
+		} else {
+			s := genAVCSPSOpt(r, esOpt{ID: -1})
+			p := genAVCPPSOpt(r, s, esOpt{ID: -1})
+			sl := genAVCSlice(r, s, p)
+			for _, d := range [][]byte{s.NALU, p.NALU, sl.NALU} {
+				out = append(out, c16Case{group: "nalu.avc", kind: "valid.esgen", ctx1: s.NALU, ctx2: p.NALU, d: d})
+			}
+		}
+	}
+	return out
+}
